@@ -690,7 +690,26 @@ def lex_rows(style, consts, elem):
         I = style[1]
         ea, eb = ("index", ("deref", ("p", 1)), I), ("index", ("deref", ("p", 2)), I)
         if elem != eq(ea, eb):
-            return [Row([], lambda path, case: "the loop continues on %s, expected left[i] == right[i]" % sym.show_atom(elem), kind="any", name="element test")]
+            # elements compared through an ordering function: inner(left[i], right[i]) (operands in this order), continue on its Equal
+            c = _root_call(elem[1])
+            nm = c[1].split("::")[-1] if c is not None else ""
+            if c is None or len(c) != 5 or not (_mentions_L(c[3], ea) and not _mentions_L(c[3], ("p", 2)) and _mentions_L(c[4], eb) and not _mentions_L(c[4], ("p", 1))) \
+                    or not (nm.startswith("cmp_") or nm in ("const_cmp", "cmp_inner")):
+                return [Row([], lambda path, case: "the loop continues on %s, expected left[i] == right[i]" % sym.show_atom(elem), kind="any", name="element test")]
+
+            def verdict_i(path, case):
+                got = u8_value(path.value, case, consts) or ordering_name(path.value)
+                if got == "Equal":
+                    return "returns Equal although the elements differ"
+                if got is None and _root_call(path.value) != c:
+                    return "the result %s is not the verdict of the element comparison" % show(path.value)
+                return None
+            inb = [lt(I, A), lt(I, B)]
+            return [Row(inb + [elem], None, kind="back", name="elements equal: continue"),
+                    Row(inb + [_neg(elem)], verdict_i, name="elements differ: verdict of the elements"),
+                    Row([le(A, I), eq(A, B)], by("Equal"), name="common prefix exhausted, same length"),
+                    Row([le(A, I), lt(A, B)], by("Less"), name="left is a proper prefix"),
+                    Row([le(B, I), lt(B, A)], by("Greater"), name="right is a proper prefix")]
         return [Row([lt(I, A), lt(I, B), lt(ea, eb)], by("Less"), name="first differing element: l<r"),
                 Row([lt(I, A), lt(I, B), lt(eb, ea)], by("Greater"), name="first differing element: l>r"),
                 Row([lt(I, A), lt(I, B), eq(ea, eb)], None, kind="back", name="elements equal: continue"),
